@@ -10,10 +10,10 @@ from __future__ import annotations
 import ast
 import collections
 
-from ..absint import EnumMember, Interp, Obj, Opaque, PyRaise, Undecided
+from ..absint import ClassRef, EnumMember, Interp, Obj, Opaque, PyRaise, Undecided
 from ..cfg import cfg_of
 from ..core import AnalysisError
-from ..facts import loc
+from ..facts import class_const, loc
 from ..packs import tables
 from ..src import Repo, Unfoldable, call_name, walk_no_nested
 
@@ -336,7 +336,7 @@ def check(ctx):
 
     # ---- R5 table types ---------------------------------------------------------------------
     c = repo.cls("GeckoConstants")
-    DEV = repo.fold(c.consts["DEVICES"], c.mod, c)
+    DEV = class_const(repo, "GeckoConstants", "DEVICES")
     n_out = 0
     for stem, m in sorted(T.modules.items()):
         for k in m.props.get("output_keys", []):
@@ -385,16 +385,40 @@ def check(ctx):
             ctx.ob("R6", f"GeckoReminderType.to_string::{nm}", ok, f"to_string({nm}) does not yield a string", ts.loc)
     rs = repo.method("Reminder", "__str__")
     rc = repo.cls("Reminder")
-    for days in (-400, -1, 0, 1, 687):
-        obj = Obj(rc, {"_type": EnumMember(tcls, "RINSE_FILTER", 1), "_days": days})
-        try:
-            interp.steps = 0
-            r = interp.call(rs, obj, [])
-            ok = True
-        except PyRaise as e:
-            ok = False
-        except Undecided as e:
-            raise AnalysisError(f"Reminder.__str__: {e}")
-        ctx.ob("R6", f"Reminder.__str__::days{days}", ok, f"Reminder.__str__ raises for days={days}", rs.loc)
+    # reminders as they come off the wire: decode with the protocol handler, build the facade's Reminder
+    # objects through their own constructor, then evaluate every read-only member
+    members = [m for m in rc.methods.values() if m.is_property and m.name != "monitor"] + [rs]
+    n_eval = 0
+    for t in range(0, 8):
+        for days in (-400, -1, 0, 1, 687):
+            rx = Obj(rcls, {"reminders": [], "_should_remove_handler": False})
+            wire = b"RMREQ" + _s.pack("<BhB", t, days, 1)
+            try:
+                interp.steps = 0
+                interp.call(rh, rx, [wire, ("1.1.1.1", 1)])
+            except (PyRaise, Undecided):
+                continue  # covered by every-type-byte-decodes
+            for rec in rx.attrs["reminders"]:
+                if rec[0] == 0:
+                    continue  # INVALID records are dropped by change_reminders / _on_reminders before a Reminder is built
+                try:
+                    interp.steps = 0
+                    obj = interp.apply(ClassRef(rc), [rec], {})
+                except (PyRaise, Undecided) as e:
+                    raise AnalysisError(f"Reminder construction: {e}")
+                for m in members:
+                    try:
+                        interp.steps = 0
+                        interp.call(m, obj, [])
+                        ok, why = True, ""
+                    except PyRaise as e:
+                        ok, why = False, e.what
+                    except Undecided as e:
+                        raise AnalysisError(f"Reminder.{m.name}: {e}")
+                    n_eval += 1
+                    if not ok or (t == 1):
+                        ctx.ob("R6", f"Reminder.{m.name}::type{t}::days{days}", ok,
+                               f"Reminder.{m.name} raises {why} for a reminder decoded from the wire (type byte {t}, {days} days; the decoder stores the type as {type(rec[0]).__name__ if not hasattr(rec[0], 'cls') else 'enum member'})", m.loc)
+    ctx.floor("R6", "reminder member evaluations on decoded records", n_eval, 90)
     ctx.assume("a facade is constructed for every combination the spa can report (the FILES reply names cfg and log versions independently)")
     ctx.note("NOT decided: exception freedom of every member for arbitrary 1024-byte block contents beyond the classes above (label lookups, reminder types, watercare byte, missing items).")
